@@ -226,7 +226,13 @@ class RegionAnalysis:
                     elif callee in F.DEST_ALGOS and a:
                         targets.append(a[-1] if callee == "std::transform" and len(a) == 4 else a[min(2, len(a) - 1)])
             for t in targets:
-                place = self.E.resolve(rfn, t)
+                t0 = strip(t)
+                if n.get("op") in ("++", "--", "+=", "-=") and t0.get("k") == "DeclRefExpr" and (t0.get("ref") or {}).get("dk") == "Var" \
+                        and re.search(r"iterator|_Fwd_list|_List_|_Rb_tree|_Node_", t0.get("t", "") or ""):
+                    # advancing an iterator variable changes the variable, not the sequence it walks
+                    place = (("local", t0["ref"]["did"]), ())
+                else:
+                    place = self.E.resolve(rfn, t)
                 if place is None:
                     continue
                 classify(n, t, place, sync)
